@@ -259,6 +259,25 @@ func sameUnder(ev *Evaluator, F *Facts, a, b *T) bool {
 	return F.Truth(ev.TS, ev.TS.Cmp("==", a, b)) == triT
 }
 
+// fullArgs: receiver (if any) followed by the arguments — the same list whether the callee is written as a
+// function taking the object or as a method on it.
+func fullArgs(e *Event) []*T {
+	var out []*T
+	if e.Recv != nil {
+		out = append(out, e.Recv)
+	}
+	return append(out, e.Args...)
+}
+
+// argN: the n-th entry of fullArgs, nil when absent.
+func argN(e *Event, n int) *T {
+	a := fullArgs(e)
+	if n < len(a) {
+		return a[n]
+	}
+	return nil
+}
+
 // rootedAt: addr is the address of a field of *base, directly or through structs base embeds by value.
 func rootedAt(addr, base *T) bool {
 	for i := 0; addr != nil && addr.Op == "faddr" && i < 4; i++ {
